@@ -40,7 +40,7 @@ ID = "C13"
 LEVEL = "exploration"
 TIERS = {
     "quick": {"runs": 20000, "wall": 60, "run_timeout": 240, "shrink_s": 40, "shrink_tries": 2000},
-    "thorough": {"runs": 400000, "wall": 1000, "run_timeout": 400, "shrink_s": 120, "shrink_tries": 5000},
+    "thorough": {"runs": 700000, "wall": 1000, "run_timeout": 400, "shrink_s": 120, "shrink_tries": 5000},
 }
 RULE = ("case = seeded history of 5..60 operations (new, add, add zero-length, add_annotator, remove present / absent, merge in place / "
         "out of place, +, copy, copy_flush, reset_bounds, add_timeline, add_annotation, [] access) over <= 4 live continua, 3 annotators, "
